@@ -45,11 +45,13 @@ def run_class(run, a, rng, opts, names, tag, n, corpus_dirs):
             for f in sorted(os.listdir(cdir)):
                 if f.endswith(".pdl") and not f.startswith("KF-"):
                     texts.append(open(os.path.join(cdir, f)).read())
-    # the witnesses of the recorded findings are replayed on every run
-    for k in run.known:
-        w = k.get("witness", {})
-        if w.get("pdl") and w["pdl"] not in texts:
-            texts.append(w["pdl"])
+    # the witnesses of the recorded findings are replayed on every run, in the class without Java (their descriptions are
+    # not written for the Java class: an 8-bit size field with 128 elements and more meets KF-C19-signed-size)
+    if "java" not in names:
+        for k in run.known:
+            w = k.get("witness", {})
+            if w.get("pdl") and w["pdl"] not in texts:
+                texts.append(w["pdl"])
     while len(texts) < n:
         texts.append(GD.generate(rng, opts)[0])
     # one Backend per back end over the SAME texts; keep only descriptions every back end builds
